@@ -13,7 +13,7 @@ use std::io::Write;
 use std::time::Duration;
 use support::{jstr, Params};
 
-const USAGE: &str = "usage: probe <burst|mixed|lifecycle|fault|slowreply|consume|family> <std|tokio|async_std|smol> <chan 0..3> [key=value ...]";
+const USAGE: &str = "usage: probe <burst|mixed|lifecycle|fault|slowreply|nothread|consume|family> <std|tokio|async_std|smol> <chan 0..3> [key=value ...]";
 
 fn finish(line: String, code: i32) -> ! {
     let out = std::io::stdout();
@@ -88,7 +88,7 @@ fn main() {
     let _guard = if lib == "tokio" { Some(support::tokio_rt().enter()) } else { None };
 
     let result = match scenario.as_str() {
-        "burst" | "mixed" | "lifecycle" | "fault" | "slowreply" => actors::dispatch(&p, false),
+        "burst" | "mixed" | "lifecycle" | "fault" | "slowreply" | "nothread" | "chain" => actors::dispatch(&p, false),
         "consume" => actors::dispatch(&p, true),
         "family" => {
             if chan != 0 {
